@@ -146,13 +146,13 @@ pub fn generate(r: &mut Runner) {
     r.log_every = if r.tier == Tier::Quick { 13 } else { 211 };
     for i in 0..cases {
         let name = ind::NAMES[i % ind::NAMES.len()];
-        let maxp = if i % 3 == 0 { 5 } else { 64 };
+        let maxp = if r.rng.chance(0.33) { 5 } else { 64 };
         let (ps, ms) = crate::diff::params_for(&mut r.rng, name, maxp);
         let mx = ps.iter().copied().max().unwrap_or(1);
-        let hl = if i % 4 == 0 { r.rng.range(0, 6) } else { r.rng.range(0, 300) };
+        let hl = if r.rng.chance(0.25) { r.rng.range(0, 6) } else { r.rng.range(0, 300) };
         let scale = *r.rng.pick(&[1.0, 100.0, 1e6]);
         let mut c = Case::new("C05", "clone-interleave", name, &ps, &ms);
-        let wp = if i % 5 == 0 { 0.02 } else { 0.0 };
+        let wp = if r.rng.chance(0.2) { 0.02 } else { 0.0 };
         c.ops = super::c04::history(r, name, hl, wp, scale);
         c.ops.push(Op::Mark);
         let cl = mx + 2 + r.rng.below(10);
